@@ -88,6 +88,66 @@ func c05HdocBodyComments(f *syntax.File) bool {
 	return false
 }
 
+// c05HasHdoc reports whether f has a here-document.
+func c05HasHdoc(f *syntax.File) bool {
+	found := false
+	syntax.Walk(f, func(n syntax.Node) bool {
+		if r, ok := n.(*syntax.Redirect); ok && (r.Op == syntax.Hdoc || r.Op == syntax.DashHdoc) {
+			found = true
+		}
+		return !found
+	})
+	return found
+}
+
+// c05HdocLineShared reports whether f has a here-document whose operator
+// line also holds, further right, the start of another statement and a
+// comment, and a here-document body (of this or another here-document) holds
+// a comment too.
+func c05HdocLineShared(f *syntax.File) bool {
+	type hd struct {
+		line, end  uint // operator line, offset of the end of the delimiter word
+		from, to   uint // body offsets
+		inner, out bool
+	}
+	var hds []*hd
+	var coms []syntax.Pos
+	var stmts []syntax.Pos
+	syntax.Walk(f, func(n syntax.Node) bool {
+		switch n := n.(type) {
+		case *syntax.Redirect:
+			if n.Hdoc != nil {
+				hds = append(hds, &hd{line: n.OpPos.Line(), end: n.Word.End().Offset(), from: n.Hdoc.Pos().Offset(), to: n.Hdoc.End().Offset()})
+			}
+		case *syntax.Comment:
+			coms = append(coms, n.Hash)
+		case *syntax.Stmt:
+			stmts = append(stmts, n.Pos())
+		}
+		return true
+	})
+	anyInner, anyOut := false, false
+	for _, h := range hds {
+		var stmtAt uint
+		for _, s := range stmts {
+			if s.Line() == h.line && s.Offset() >= h.end && (stmtAt == 0 || s.Offset() < stmtAt) {
+				stmtAt = s.Offset()
+			}
+		}
+		for _, c := range coms {
+			if c.Offset() >= h.from && c.Offset() < h.to {
+				h.inner = true
+			}
+			if stmtAt > 0 && c.Line() == h.line && c.Offset() > stmtAt {
+				h.out = true
+			}
+		}
+		anyInner = anyInner || h.inner
+		anyOut = anyOut || h.out
+	}
+	return anyInner && anyOut
+}
+
 // c05BackquoteInlineComments returns the texts of the comments that are the
 // whole content of a backquoted command substitution (`# text`).
 func c05BackquoteInlineComments(f *syntax.File) map[string]bool {
@@ -128,7 +188,7 @@ func c05Class(f *syntax.File, cfg synt.Config, got, exp []string) string {
 		// In a single line a here-document body follows everything else
 		// that was joined into the line, so the comments of a substitution
 		// in the body come after the trailing comment of the line.
-		if c05SameMultiset(got, exp) && c05HdocBodyComments(f) {
+		if c05SameMultiset(got, exp) && c05HasHdoc(f) {
 			return "singleline-heredoc-comment-order"
 		}
 		return ""
@@ -137,6 +197,12 @@ func c05Class(f *syntax.File, cfg synt.Config, got, exp []string) string {
 		// operator's line. The parser puts there the comments between
 		// "for/select ... [in words]" and the first body statement and
 		// the comment after a here-document operator.
+		if c05SameMultiset(got, exp) && c05HdocLineShared(f) {
+			// "a <<E; b # c" + body with a comment: the printer puts
+			// every statement on its own line, so the body (and its
+			// comment) moves before the rest of the source line
+			return "heredoc-shared-line-comment-order"
+		}
 		missing, ok := c05MissingFrom(got, exp)
 		if !ok || len(missing) == 0 {
 			return ""
